@@ -17,6 +17,9 @@ std::map<std::string, int> g_failnext;
 int                        g_srcip    = 1;
 bool                       g_tfo_ok   = false;
 int                        g_nservers = 1;
+int                        g_chunk    = 0;
+std::vector<int>           g_wscript_default;
+long                       g_io_events = 0;
 static int                 g_nextfd   = 100;
 
 void ev(const char *fmt, ...) {
@@ -36,6 +39,9 @@ void vsock_reset() {
   g_failnext.clear();
   g_nextfd = 100;
   g_srcip  = 1;
+  g_chunk  = 0;
+  g_wscript_default.clear();
+  g_io_events = 0;
 }
 
 static int take_fail(const char *op) {
@@ -71,6 +77,7 @@ static ares_socket_t v_socket(int domain, int type, int, void *) {
   s.fd     = g_nextfd++;
   s.tcp    = (type == SOCK_STREAM);
   s.family = domain;
+  if (s.tcp) for (int x : g_wscript_default) s.wscript.push_back(x);
   g_socks[s.fd] = s;
   ev("{\"e\":\"sk\",\"op\":\"open\",\"fd\":%d,\"tcp\":%d,\"fam\":%d,\"res\":\"ok\"}", s.fd, s.tcp ? 1 : 0,
      domain == AF_INET6 ? 6 : 4);
@@ -176,6 +183,7 @@ static ares_ssize_t v_recvfrom(ares_socket_t fd, void *buffer, size_t length, in
                                ares_socklen_t *address_len, void *) {
   VSock *s = lookup(fd, "recv");
   if (!s) { errno = EBADF; return -1; }
+  g_io_events++;
   int e = take_fail("recvfrom");
   if (e) {
     ev("{\"e\":\"sk\",\"op\":\"recv\",\"fd\":%d,\"res\":\"err\"}", fd);
@@ -211,6 +219,8 @@ static ares_ssize_t v_recvfrom(ares_socket_t fd, void *buffer, size_t length, in
   if (!s->chunks.empty()) {
     if ((size_t)s->chunks.front() < n) n = (size_t)s->chunks.front();
     s->chunks.pop_front();
+  } else if (g_chunk > 0 && (size_t)g_chunk < n) {
+    n = (size_t)g_chunk;
   }
   if (n > length) n = length;
   memcpy(buffer, s->instream.data(), n);
@@ -265,6 +275,7 @@ static ares_ssize_t v_sendto(ares_socket_t fd, const void *buffer, size_t length
                              ares_socklen_t, void *) {
   VSock *s = lookup(fd, "send");
   if (!s) { errno = EBADF; return -1; }
+  g_io_events++;
   int e = take_fail("sendto");
   if (e == 0 && !s->wscript.empty() && s->wscript.front() == -2) { s->wscript.pop_front(); e = ECONNRESET; }
   std::string attempted;  // UDP: what the library tried to send (decoded, not counted as a transmission)
@@ -321,7 +332,7 @@ static ares_ssize_t v_sendto(ares_socket_t fd, const void *buffer, size_t length
     fr += frame_json(f);
   }
   ev("{\"e\":\"sk\",\"op\":\"send\",\"fd\":%d,\"tcp\":1,\"srv\":%d,\"res\":\"ok\",\"n\":%zu,\"len\":%zu,\"hex\":\"%s\",\"frames\":[%s]}",
-     fd, s->srv, n, length, n <= 64 ? hexs(std::string((const char *)buffer, n)).c_str() : "", fr.c_str());
+     fd, s->srv, n, length, n <= 200 ? hexs(std::string((const char *)buffer, n)).c_str() : "", fr.c_str());
   return (ares_ssize_t)n;
 }
 
